@@ -107,11 +107,18 @@ Section P.
     destruct (load_new_index _ _ _ _ M2' H2) as [-> _]. lia.
   Qed.
 
-  (* a watcher registered before is stopped by any later registration for the same file *)
-  Lemma cancel_stops path ws w : In w (cancel_watchers path ws) -> w_file w = path -> w_alive w = false.
+  (* a watcher registered before is stopped by any later registration under the same id (same settings, same file),
+     and by no other registration *)
+  Lemma cancel_stops id ws w : In w (cancel_watchers id ws) -> w_id w = id -> w_alive w = false.
   Proof.
     unfold cancel_watchers. intros Hin Hf. apply in_map_iff in Hin as [w0 [E _]].
-    destruct (String.eqb_spec (w_file w0) path) as [Ep|Np]; subst w; cbn in *; [reflexivity | contradiction].
+    destruct (id_eqb (w_id w0) id) eqn:Ei; subst w; cbn in *; [reflexivity|].
+    rewrite Hf, id_eqb_refl in Ei. discriminate.
+  Qed.
+  Lemma cancel_spares id ws w : In w ws -> w_id w <> id -> In w (cancel_watchers id ws).
+  Proof.
+    unfold cancel_watchers. intros Hin Hn. apply in_map_iff. exists w. split; [|exact Hin].
+    destruct (id_eqb (w_id w) id) eqn:Ei; [apply id_eqb_eq in Ei; contradiction|reflexivity].
   Qed.
 End P.
 
@@ -129,6 +136,6 @@ Proof.
   apply String.eqb_neq in Hf. rewrite Hf. cbn [negb andb]. rewrite Hl.
   apply Z.ltb_lt in Hi. rewrite Hi. apply String.eqb_neq in Hc. rewrite Hc, Hp. cbn [fst snd objs].
   split; [reflexivity|]. split; [reflexivity|].
-  unfold tick, rewrite_file. cbn [files objs watchers cancel_watchers map app tick_all tick_one w_alive w_file w_data w_target].
+  unfold tick, rewrite_file. cbn [files objs pool watchers cancel_watchers map app tick_all tick_one w_alive w_file w_data w_id pool_lookup]. rewrite id_eqb_refl.
   rewrite lookup_set_same. apply String.eqb_neq in Hne. rewrite Hne. cbn [nth_error length]. rewrite Hp'. reflexivity.
 Qed.
